@@ -280,6 +280,62 @@ def run_history(mod, script, text, cmds, free, tagline, st, viol, ctx, budget=40
                       f'debugged run {oc}', text=text, cmds=executed))
 
 
+def run_stepcover(case, text, script, tagline, st, viol, shapes):
+    """Pure stepping session: every tagged statement the program executes (seen as the push of its unique literal) lies on a
+    line the debugger stopped at."""
+    for O in (0, 1, 2):
+        c = rt.compile_src(text, O, True)
+        if c.status != 'ok':
+            continue
+        mod = rt.load_module(c.modbytes)
+        try:
+            s = dbgdrv.DbgSession(mod, script, budget=60000, autostatus=['off', 'cur', 'curi'][O])
+        except Exception as e:  # noqa: BLE001
+            viol.append(V(f'C12:debugger-init-crash:{rt.crash_sig(e)}', f'O{O}g: {e}', text=text))
+            continue
+        st['sessions'] += 1
+        pushed = []
+        orig = s.cpu._exec_push_long
+
+        def push_long(value, _orig=orig, _pushed=pushed):
+            if value in tagline:
+                _pushed.append(value)
+            return _orig(value)
+        s.cpu._exec_push_long = push_long
+        stops = set()
+        k0 = stmt_key(s.cur_stmt())
+        if k0:
+            stops.add(k0[2])
+        n = 0
+        ok = True
+        while not s.finished and n < 4000:
+            n += 1
+            out, exc = s.do('step')
+            st['commands'] += 1
+            if exc in ('tick-budget', 'script-exhausted'):
+                ok = False
+                st['sessions_cut_by_budget'] = st.get('sessions_cut_by_budget', 0) + 1
+                break
+            if exc is not None:
+                viol.append(V(f'C12:host-exception:step:{rt.crash_sig(exc)}', f'O{O}g: stepping: {exc}', text=text))
+                ok = False
+                break
+            k1 = stmt_key(s.cur_stmt())
+            if k1 and not s.finished:
+                stops.add(k1[2])
+        if not ok or not s.finished:
+            continue
+        executed_lines = {tagline[t] for t in pushed}
+        st['step_cover_lines_checked'] = st.get('step_cover_lines_checked', 0) + len(executed_lines)
+        shapes.append(f'{shape_of(text)}|{O}|stepcover')
+        missing = sorted(executed_lines - stops)
+        if missing:
+            ln = missing[0]
+            viol.append(V('C12:executed-statement-never-stopped-in', f'O{O}g: stepping through the whole program stopped on lines '
+                          f'{sorted(stops)[:40]}; the tagged statement on line {ln} ({text.split(chr(10))[ln - 1].strip()[:60]!r}) was '
+                          f'executed without a stop in it', text=text, line=ln))
+
+
 def gen_cases(tier, seed):
     cs = []
     n = 40 if tier == 'quick' else 500
@@ -299,6 +355,9 @@ def gen_cases(tier, seed):
     for i, b in enumerate(gen_cases_corpus(n // 2, seed + 3, opts={'max_stmts': 6, 'max_depth': 2, 'tags': True, 'input': False},
                                            with_repo=False)):
         cs.append({'kind': 'bpcount', 'base': b, 'k': i})
+    for i, b in enumerate(gen_cases_corpus(n, seed + 9, opts={'max_stmts': 7, 'max_depth': 2, 'tags': True, 'input': False},
+                                           with_repo=False)):
+        cs.append({'kind': 'stepcover', 'base': b, 'k': i})
     return cs
 
 
@@ -438,6 +497,9 @@ def run_case(case):
                     break
             if sample is None:
                 sample = {'program': text[:300], 'history': [' '.join(map(str, c_)) for c_ in cmds][:12]}
+    elif case['kind'] == 'stepcover':
+        run_stepcover(case, text, script, tagline, st, viol, shapes)
+        sample = {'program': text[:300], 'step_cover_lines_checked': st.get('step_cover_lines_checked', 0)}
     elif case['kind'] == 'exhaustive':
         O = case['O']
         c = rt.compile_src(text, O, True)
